@@ -36,6 +36,8 @@ struct RunOutcome {
 	std::set<uint64_t> case_hashes; // distinct nontrivial cases
 	bool nontrivial = false;
 	uint64_t digest = 0;
+	std::vector<uint64_t> cmd_digests;
+	std::vector<std::string> cmd_lines;
 	bool harness_error = false;
 	std::string harness_msg;
 	Json sample;
